@@ -48,7 +48,7 @@ func isRT(fn *ssa.Function, prog *ssa.Program) bool {
 		return false
 	}
 	f := prog.Fset.Position(fn.Pos()).Filename
-	return strings.HasSuffix(f, "zz_verif_rt.go")
+	return strings.Contains(f, "zz_verif_rt")
 }
 
 func (in *Interp) mkError(msg string) Value {
@@ -262,6 +262,8 @@ func init() {
 		n := argInt(c.args[0])
 		return SliceV{arr: in.newArray(types.Typ[types.Uint8], n), len: n, cap: n}
 	}
+	intrinsics["internal/stringslite.Clone"] = func(in *Interp, c *callCtx) Value { return c.args[0] }
+	intrinsics["strings.Clone"] = func(in *Interp, c *callCtx) Value { return c.args[0] }
 	intrinsics["strings.Index"] = func(in *Interp, c *callCtx) Value {
 		return in.indexString(c.args[0].(Str), c.args[1].(Str))
 	}
